@@ -534,8 +534,51 @@ def _tt(script, status, res, exp, bucket, emit):
         emit({"v": "held", "b": bucket, "sample": {"script": script, "cells": len(exp)}})
 
 
+def make_dsif_case(rng):
+    """dataset-level if / case with a condition on a measure of a third dataset (true / false / null per datapoint)"""
+    keys = rng.sample([1, 2, 3, 4, 5, 6], rng.randint(2, 6))
+    cond = [[k, rng.choice([None, -2, 0, 1, 5])] for k in keys]
+    mk = lambda base: [[k, None if rng.random() < 0.15 else float(base + k)] for k in keys]  # noqa: E731
+    return {"level": "dataset-if", "form": rng.choice(["if", "case", "case2"]), "cond": cond, "then": mk(100), "else": mk(200), "mid": mk(300),
+            "thr": rng.choice([0, 1])}
+
+
+def run_dsif_case(case, emit):
+    from vf import eng
+    ci = [("Id_1", "Integer", "Identifier", False), ("Me_1", "Integer", "Measure", True)]
+    cn = [("Id_1", "Integer", "Identifier", False), ("Me_1", "Number", "Measure", True)]
+    st = eng.structures(eng.mkds("DS_C", ci), eng.mkds("DS_1", cn), eng.mkds("DS_2", cn), eng.mkds("DS_3", cn))
+    dfs = {"DS_C": eng.mkdf(["Id_1", "Me_1"], [tuple(r) for r in case["cond"]]), "DS_1": eng.mkdf(["Id_1", "Me_1"], [tuple(r) for r in case["then"]]),
+           "DS_2": eng.mkdf(["Id_1", "Me_1"], [tuple(r) for r in case["else"]]), "DS_3": eng.mkdf(["Id_1", "Me_1"], [tuple(r) for r in case["mid"]])}
+    t = case["thr"]
+    if case["form"] == "if":
+        script = f"DS_r <- if DS_C#Me_1 > {t} then DS_1 else DS_2;"
+    elif case["form"] == "case":
+        script = f"DS_r <- case when DS_C#Me_1 > {t} then DS_1 else DS_2;"
+    else:
+        script = f"DS_r <- case when DS_C#Me_1 > {t} then DS_1 when DS_C#Me_1 < {t} then DS_3 else DS_2;"   # exclusive conditions
+    th, el, mid = dict(map(tuple, case["then"])), dict(map(tuple, case["else"])), dict(map(tuple, case["mid"]))
+    exp = []
+    outcomes = set()
+    for k, c in case["cond"]:
+        if c is not None and c > t:
+            exp.append((k, th[k]))
+            outcomes.add("T")
+        elif case["form"] == "case2" and c is not None and c < t:
+            exp.append((k, mid[k]))
+            outcomes.add("M")
+        else:
+            exp.append((k, el[k]))
+            outcomes.add("N" if c is None else "F")
+    bucket = f"dataset-{case['form']}/conditions={''.join(sorted(outcomes))}"
+    status, res = eng.call(eng.run, script, st, dfs)
+    judge(case, script, bucket, status, res, emit, False, False, lambda: exp, 1, True, ops={case["form"]})
+
+
 def run_case(case, emit):
     lv = case["level"]
+    if lv == "dataset-if":
+        return run_dsif_case(case, emit)
     if lv == "component":
         run_component_case(case, emit)
     elif lv == "scalar":
@@ -557,7 +600,14 @@ def run_shard(spec, emit):
             emit({"v": "inc", "why": "cut by wall-clock budget"})
             break
         r = rng.random()
-        case = make_component_case(rng) if r < 0.5 else (make_scalar_case(rng) if r < 0.65 else make_dataset_case(rng))
+        if r < 0.45:
+            case = make_component_case(rng)
+        elif r < 0.58:
+            case = make_scalar_case(rng)
+        elif r < 0.66:
+            case = make_dsif_case(rng)
+        else:
+            case = make_dataset_case(rng)
         run_case(case, emit)
 
 
